@@ -302,7 +302,14 @@ def gen_bounds(rng):
     if r < 0.10:        # empty / reversed ranges
         l = rng.choice(CENTRES) + rng.randint(-2, 2)
         return l, l - rng.choice([0, 0, 1, 2, P(56), P(64), P(130)])
-    if r < 0.65:
+    if r < 0.30:        # both bounds fixnums (u64 sampler), incl. the extreme fixnums
+        span = rng.choice([1, 2, 3, 6, 7, 10, 100, 255, P(16) + 1, P(31), P(32) - 1, P(32), P(32) + 1, P(33) + P(31), P(50), P(54) + 3,
+                           P(55) - 1, P(55), P(55) + 1, P(56) - 2])
+        l = rng.choice([0, 0, 1, -1, -span // 2, -span, P(31), -P(31), P(55) - 1 - span, -P(55) + 1, rng.randint(-10 ** 6, 10 ** 6)])
+        l = max(l, -P(55) + 1)
+        u = min(l + span, P(55) - 1)
+        return l, u
+    if r < 0.70:
         c = rng.choice(CENTRES) + rng.randint(-2, 2)
         span = rng.choice(SPANS)
         off = rng.choice([0, 0, 1, span // 2, span - 1, span, span + 1]) if span > 1 else rng.choice([0, 1])
@@ -434,7 +441,7 @@ def judge_case(case, impl, model, stats):
         if o is not None:
             findings.append(fnd("violation", {"input": call_pl(c)[:200], "impl": ",".join(io)[:120]}, o))
             continue
-        if c["k"] == "S" and io == ["true"]:
+        if c["k"] == "S" and io == ["true"] and not any(f.kind == "disagreement" for f in findings):
             seeded = True
         if not seeded:
             stats["oracle_only"] += 1
@@ -445,7 +452,8 @@ def judge_case(case, impl, model, stats):
                                                  "model": ",".join(mo[first:first + 1])[:100], "at": str(first)},
                                 "the value differs from the model's function of the seed's raw word stream (all values are in range): "
                                 "the sampling algorithm or the generator changed"))
-            return findings     # later values are shifted too
+            seeded = False      # later values are shifted too: only the oracle and the reproducibility comparison go on
+            continue
         stats["agree"] += 1
         if c["k"] in ("I", "R") and c.get("r") == "v" and io and io[0] not in ("fails",) and not io[0].startswith(("inst", "type")):
             stats["distinct"].add((call_pl(c), io[0]))
@@ -519,9 +527,9 @@ def run(ctx):
                 k["repro"] = c["repro"]
             cases.append(k)
         if tier == "quick":
-            nscripts, ncalls, bulk, nrep, nuns, nstat = 220, 12, 40, 6, 3, 3000
+            nscripts, ncalls, bulk, nrep, nuns, nstat = 160, 12, 40, 8, 3, 3000
         else:
-            nscripts, ncalls, bulk, nrep, nuns, nstat = 2500, 16, 400, 40, 12, 10000
+            nscripts, ncalls, bulk, nrep, nuns, nstat = 800, 14, 300, 30, 10, 10000
         cases += [gen_script(rng, "s%d" % i, ncalls, bulk) for i in range(nscripts)]
         cases += [gen_repro(rng, "r%d" % i, 8, bulk) for i in range(nrep)]
         cases += [gen_badseed(rng, "b%d" % i, s) for i, s in enumerate(BAD_SEEDS)]
@@ -533,6 +541,13 @@ def run(ctx):
                 l = cen - rng.choice([0, 1, sp // 2, sp - 1])
                 calls.append({"k": "I", "l": l, "u": l + sp, "r": "v", "n": 3})
             cases.append(make_case("d%d" % i, calls))
+        # directed: width 1..3 ranges straddling the fixnum boundaries (fix/big and big/fix arms; the
+        # literal -2^55 itself is an arena integer) and the u64/u128 word boundaries
+        for i, b in enumerate([P(55), -P(55), P(63), P(64), -P(64), P(128), -P(128)]):
+            calls = [{"k": "S", "a": gen_seed(rng)}]
+            for lo, hi in [(-1, 0), (-1, 1), (-2, 1), (0, 1), (0, 2), (-3, 0), (-1, 2)]:
+                calls.append({"k": "I", "l": b + lo, "u": b + hi, "r": "v", "n": 6})
+            cases.append(make_case("e%d" % i, calls))
         cases += [gen_stat(rng, "t0", nstat)]
     t0 = time.time()
     impl, model = diff.run_cases(cases, impl_env=IMPL_ENV)
@@ -567,6 +582,7 @@ def run(ctx):
                         chis["maybe n=%d df=1" % len(io)] = chi_square([1 if x == "true" else 0 for x in io], 2)
                 except ValueError:
                     pass
+    findings.sort(key=lambda f: 0 if f.kind == "violation" else 1)
     words = [model.get(c["id"] + "_m", "").split(" pos=")[-1] for c in cases[:3]]
     samples = []
     for c in cases[:3] + cases[-3:]:
